@@ -111,7 +111,14 @@ def run_behaviour(chk, u0, order, states, frags):
                 chk.violation("fixed_point:%s" % tag, "a physical object is changed by the physical projection", case)
 
 
-def generic_inputs(chk, rs, n_cases):
+GENERIC_NAMES = {
+    "qubit": dict(povm=("x", "y", "z"), gate=("x90", "hadamard", "y90"), mprocess=("x-type1", "z-type2"), state=("a",)),
+    "qutrit": dict(povm=("z3", "01x3", "12y3"), gate=("01x90", "12y90", "02z90"), mprocess=("z3-type1", "z2-type2"), state=("01z0", "0_1_2_superposition")),
+    "qubit2": dict(povm=("x_x", "bell", "y_z"), gate=("cx", "zx90", "swap"), mprocess=("bell-type1", "zzparity-type1"), state=("bell_phi_plus", "x0_x1")),
+}
+
+
+def generic_inputs(chk, rs, n_cases, system="qubit"):
     """Non-commuting POVMs and generic gates / measurement processes: no closed form - feasibility, order
     independence, object/variable agreement, fixed point and history consistency only."""
     from quara.objects.povm import Povm
@@ -119,23 +126,26 @@ def generic_inputs(chk, rs, n_cases):
     from quara.objects.mprocess import MProcess
     from quara.objects.state import State
     from harness import qobjs
-    c = qobjs.csys("qubit", 1)
+    c = {"qubit": lambda: qobjs.csys("qubit", 1), "qutrit": lambda: qobjs.csys("qutrit", 1), "qubit2": lambda: qobjs.csys("qubit", 2)}[system]()
+    names = GENERIC_NAMES[system]
+    nn = c.dim ** 2
+    sfx = "" if system == "qubit" else ":" + system
     for i in range(n_cases):
-        kind = ("povm", "gate", "mprocess", "state")[i % 4]
-        scale = (0.05, 0.3, 3.0, 30.0)[(i // 4) % 4]
+        kind = ("povm", "gate", "mprocess", "state")[i % 4] + sfx
+        scale = (0.05, 0.3, 3.0, 30.0)[(i // 4) % 4] if system == "qubit" else (0.05, 0.3)[(i // 4) % 2]
         try:
-            if kind == "povm":
-                base = qobjs.gen("povm", ("x", "y", "z")[i % 3], c)
-                mk = lambda **kw: Povm(c, [v + scale * 0.1 * np.round(rs_local.randn(4), 3) for v in base.vecs], is_physicality_required=False, **kw)
-            elif kind == "gate":
-                base = qobjs.gen("gate", ("x90", "hadamard", "y90")[i % 3], c)
-                mk = lambda **kw: Gate(c, base.hs + scale * 0.1 * np.round(rs_local.randn(4, 4), 3), is_physicality_required=False, **kw)
-            elif kind == "mprocess":
-                base = qobjs.gen("mprocess", ("x-type1", "z-type2")[i % 2], c)
-                mk = lambda **kw: MProcess(c, [h + scale * 0.1 * np.round(rs_local.randn(4, 4), 3) for h in base.hss], is_physicality_required=False, **kw)
+            if kind.startswith("povm"):
+                base = qobjs.gen("povm", names["povm"][i % 3], c)
+                mk = lambda **kw: Povm(c, [v + scale * 0.1 * np.round(rs_local.randn(nn), 3) for v in base.vecs], is_physicality_required=False, **kw)
+            elif kind.startswith("gate"):
+                base = qobjs.gen("gate", names["gate"][i % 3], c, ids=[0, 1] if system == "qubit2" else None)
+                mk = lambda **kw: Gate(c, base.hs + scale * 0.1 * np.round(rs_local.randn(nn, nn), 3), is_physicality_required=False, **kw)
+            elif kind.startswith("mprocess"):
+                base = qobjs.gen("mprocess", names["mprocess"][i % 2], c)
+                mk = lambda **kw: MProcess(c, [h + scale * 0.1 * np.round(rs_local.randn(nn, nn), 3) for h in base.hss], is_physicality_required=False, **kw)
             else:
-                base = qobjs.gen("state", "a", c)
-                mk = lambda **kw: State(c, base.vec + scale * 0.1 * np.round(rs_local.randn(4), 3), is_physicality_required=False, **kw)
+                base = qobjs.gen("state", names["state"][i % len(names["state"])], c)
+                mk = lambda **kw: State(c, base.vec + scale * 0.1 * np.round(rs_local.randn(nn), 3), is_physicality_required=False, **kw)
             seed = rs.randint(2 ** 31)
             results = {}
             for order in ("eq_ineq", "ineq_eq"):
@@ -172,12 +182,22 @@ def generic_inputs(chk, rs, n_cases):
                 if np.max(np.abs(stacked(rr) - stacked(r))) > 1e-5 * (1 + scale):
                     chk.violation("generic:fixed_point:" + kind, "projection of the projection moves by %.3g" % float(np.max(np.abs(stacked(rr) - stacked(r)))), dict(kind=kind, i=i, order=order))
                 # variable-level = object-level
-                rs_local = np.random.RandomState(seed)
-                o2 = mk(mode_proj_order=order, eps_proj_physical=1e-14)
-                with contextlib.redirect_stdout(io.StringIO()):
-                    rv = o2.calc_proj_physical_with_var(np.asarray(o2.to_var()).copy(), on_para_eq_constraint=o2.on_para_eq_constraint)
-                if o2.on_para_eq_constraint is False and not coords.close(np.asarray(rv), stacked(r), 1e-6):
-                    chk.violation("generic:var_vs_obj:" + kind, "variable-level routine differs from object-level", dict(kind=kind, i=i, order=order))
+                # (without the built-in parametrisation the variables are the stacked vector; with it the operand of the
+                # variable-level routine lies on the equality constraint by construction, so the object-level reference
+                # is the projection of the equality-projected input)
+                for para in (False, True):
+                    rs_local = np.random.RandomState(seed)
+                    o2 = mk(mode_proj_order=order, eps_proj_physical=1e-14, on_para_eq_constraint=para)
+                    with contextlib.redirect_stdout(io.StringIO()):
+                        rv = o2.calc_proj_physical_with_var(np.asarray(o2.to_var()).copy(), on_para_eq_constraint=para)
+                        ref = stacked(r) if not para else None
+                        if para:
+                            o3 = o2.generate_from_var(np.asarray(o2.to_var()).copy())
+                            o3.set_mode_proj_order(order)
+                            ref = np.asarray(o3.calc_proj_physical().to_var())
+                    if not coords.close(np.asarray(rv), ref, 1e-6 * (1 + scale)):
+                        chk.violation("generic:var_vs_obj:%s:%s" % (kind, "para" if para else "nopara"),
+                                      "variable-level routine differs from object-level (max dev %.3g)" % float(np.max(np.abs(np.asarray(rv) - ref))), dict(kind=kind, i=i, order=order))
             if len(results) == 2 and np.max(np.abs(results["eq_ineq"] - results["ineq_eq"])) > 2e-5 * (1 + scale):
                 chk.violation("generic:order_dependence:" + kind, "the two projection orders give different points (max dev %.3g)" % float(np.max(np.abs(results["eq_ineq"] - results["ineq_eq"]))), dict(kind=kind, i=i))
         except Exception as e:
@@ -204,6 +224,9 @@ def run(chk):
         if i in (2, 300):
             chk.sample(dict(u0=states[0]["u0"], order=order, np=states[0]["np"], sweep1=[s["s"] for s in states if s["s"]["k"] == 1][0]))
     generic_inputs(chk, rs, 16 if t == "quick" else 96)
+    # larger systems (the constraint routines index rows / blocks by dim and dim ** 2, which coincide only for one qubit)
+    generic_inputs(chk, rs, 4 if t == "quick" else 16, system="qutrit")
+    generic_inputs(chk, rs, 4 if t == "quick" else 8, system="qubit2")
     chk.notes["behaviours"] = len(groups)
     chk.assumptions += [
         "closed-form nearest physical object only on the covariant fragments (states in any frame, POVMs with a common eigenframe, Weyl-diagonal gates / measurement processes); non-commuting POVMs and generic gates: feasibility, order independence, object/variable agreement, fixed point and history consistency only (no semidefinite-programming oracle)",
